@@ -83,7 +83,7 @@ prop("C10", "exploration", "MMIO bus trace (safe-mmio custom-mmio backend) check
      "ready/PFN written last, read-back of QueueReady=0, Status=0 as the last access on drop) and its result against the device state; probing is checked on random headers x region sizes (acceptance iff magic, version, known device id, size >= 0x100; no writes).",
      "The register table (DESIGN Appendix A) is a transcription of VirtIO 1.2 §4.2.2/§4.2.4 (trusted base). A ConfigGeneration read on a legacy device is tolerated and counted. Rules are rule-based (what must precede what), not trace equality, where the specification leaves order open.",
      "a case is (i) one MmioTransport (legacy or modern, direct or via SomeTransport, random device id / features) driven through 60 random Transport operations with random queue indices {0,1,7,0xffff,..}, sizes 2^0..2^15, 64-bit address triples with bits 31/32/63 forced, "
-     "feature words, status and interrupt values, or (ii) one probe of a random header (magic/version/device id drawn from {correct, +-1, 0, all-ones, random, byte-swapped}) with region size in {0,4,0xfc,0xff,0x100,0x101,0x200,0x1000}. "
+     "feature words, status and interrupt values (one legacy queue_set in eight lies outside the 32-bit page-frame range: the transport may refuse, but must never write QueuePFN), or (ii) one probe of a random header (magic/version/device id drawn from {correct, +-1, 0, all-ones, random, byte-swapped}) with region size in {0,4,0xfc,0xff,0x100,0x101,0x200,0x1000}. "
      "Non-trivial: at least one bus access or a refusal was observed (always). distinct: 64-bit content fingerprint of every value the generator handed out for the case (device, operations, arguments; header fields and region size for probes), so probes drawn from the small value sets collapse onto each other; counts of checked operations per kind are in observed.op_*.",
      [stage("checked", scale=8000)], [stage("checked", scale=200000), stage("release", scale=20000)])
 
@@ -133,7 +133,7 @@ prop("C15", "exploration", "reference console device feeding a position-coded by
      "the device counts outstanding receive chains at every observation point (API boundaries, spin hooks, load hooks) and compares 'bytes delivered' with 'bytes consumed' at the instant a new receive chain appears; every transmit chain is compared byte-wise with the caller's buffer; a final drain through read() must return everything delivered.",
      DRV_NOTE + " Liveness of polling recv() alone after a bulk read is not part of the (safety) statement.",
      "a case is one VirtIOConsole (transport model / model-no-unset / MMIO modern / MMIO legacy / PCI; INDIRECT_DESC x EVENT_IDX by case number; device policy serve-on-notify / polling / eager) driven through 600 (thorough 2000) API calls drawn from recv(peek), recv(pop), read (sizes 0,1,..600,4096,5000), fill_buf+consume, read_ready, ack_interrupt, send, send_bytes, embedded_io::Write, "
-     "with device chunks of 1..4096 bytes delivered at API boundaries, inside wait loops (spin hook) and inside the driver's used-index loads (dma hook). Non-trivial iff at least one received byte was checked; distinct by hash of (configuration, operation list).",
+     "with device chunks of 1..4096 bytes delivered at API boundaries, inside wait loops (spin hook) and inside the driver's used-index loads (dma hook). Each shard adds one long-transmit run (70000 single-byte sends to a serve-on-notify device, ring-feature combination = shard mod 4) so that the transmit index passes 0x8000 and wraps. Non-trivial iff at least one received byte was checked; distinct by hash of (configuration, operation list).",
      [stage("checked", scale=8000)], [stage("checked", scale=17000), stage("asan", scale=1500, optional=True), stage("miri", optional=True, timeout=3600)])
 
 prop("C16", "exploration", "reference network device with uniquely numbered frames + receive-buffer ownership ledger (conservation check at every quiescent point)",
